@@ -256,7 +256,55 @@ def _yaml_flow(node):
     return node_yaml(node)
 
 
-FORMATS = {"json": (node_json, "json"), "json5": (node_json5, "json5"), "yaml": (node_yaml, "yaml")}
+_YAML_PLAIN = re.compile(r"^[a-z]+( [a-z]+)*$")
+_YAML_RESERVED = {"yes", "no", "true", "false", "null", "on", "off", "y", "n"}
+
+
+def _yaml2_scalar(text):
+    """idiomatic YAML: a plain scalar when that cannot be mistaken for anything else, single quotes when the text has no line
+    break or control character, double quotes otherwise"""
+    if _YAML_PLAIN.match(text) and text not in _YAML_RESERVED:
+        return text
+    if all(c >= " " and c not in "\u0085\u2028\u2029\ufeff" for c in text) and text == text.strip(" "):
+        return "'" + text.replace("'", "''") + "'"
+    return json.dumps(text, ensure_ascii=False).replace("\u2028", "\\L").replace("\u00a0", "\\_")
+
+
+def node_yaml2(node, rng=None, indent=0):
+    """Block style for maps AND sequences, plain / single-quoted scalars where possible (the way people write YAML by hand)."""
+    t = node["t"]
+    pad = "  " * indent
+    if t == "str":
+        return _yaml2_scalar(text_of(node["s"]))
+    if t in ("raw", "rawsym", "special"):
+        return node_yaml(node)
+    if t == "seq":
+        if not node["e"]:
+            return "[]"
+        lines = []
+        for x in node["e"]:
+            if x["t"] in ("map", "seq") and x["e"]:
+                inner = node_yaml2(x, rng, indent + 1)
+                # the first line of a nested block goes on the dash line
+                lines.append(pad + "- " + inner[len("  " * (indent + 1)):])
+            else:
+                lines.append(pad + "- " + node_yaml2(x, rng, indent + 1))
+        return "\n".join(lines)
+    if t == "map":
+        if not node["e"]:
+            return "{}"
+        lines = []
+        for k, v in _entries(node, rng):
+            kk = k if _YAML_PLAIN.match(k) and k not in _YAML_RESERVED else json.dumps(k, ensure_ascii=False)
+            if v["t"] in ("map", "seq") and v["e"]:
+                lines.append(pad + kk + ":\n" + node_yaml2(v, rng, indent + 1))
+            else:
+                lines.append(pad + kk + ": " + node_yaml2(v, rng, indent + 1))
+        return "\n".join(lines)
+    raise ToolError("bad node %r" % (node,))
+
+
+FORMATS = {"json": (node_json, "json"), "json5": (node_json5, "json5"), "yaml": (node_yaml, "yaml"), "yaml2": (node_yaml2, "yaml")}
 
 
 def toml_value(v):
